@@ -20,6 +20,15 @@ func (x *Exec) homeMethodEffect(st *State, w Value, name string) {
 	guards := map[string]Term{}
 	sorts := map[string]Sort{}
 	var allGuard Term = TFalse
+	type pres struct {
+		g   Term
+		pre Term
+		c   *Clause
+		fn  *ssa.Function
+		rv  Value
+	}
+	var preserved []pres
+	pre := st.clone()
 	for _, t := range x.eng.concreteTypes {
 		sel := x.eng.prog.MethodSets.MethodSet(t).Lookup(x.eng.home, name)
 		if sel == nil {
@@ -42,6 +51,17 @@ func (x *Exec) homeMethodEffect(st *State, w Value, name string) {
 		fs := x.eng.frameOf(fn)
 		if fs.all {
 			allGuard = Or(allGuard, g)
+		}
+		if ct := x.eng.contracts.Funcs[fnKey(fn, x.eng.home)]; ct != nil && len(ct.Preserves)+len(ct.Stables) > 0 && len(fn.Params) > 0 {
+			rv := x.unbox(nil, pre, iv, t)
+			for _, pc := range append(append([]*Clause{}, ct.Preserves...), ct.Stables...) {
+				vars := map[string]TV{fn.Params[0].Name(): {rv, fn.Params[0].Type()}}
+				env := x.newEnv(&Frame{fn: fn, regs: map[ssa.Value]Value{}}, pre, pre, vars, fn)
+				p0 := env.evalBool(pc.Expr)
+				if env.err == nil {
+					preserved = append(preserved, pres{g, p0, pc, fn, rv})
+				}
+			}
 		}
 		for k, srt := range fs.keys {
 			if cur, has := guards[k]; has {
@@ -69,6 +89,15 @@ func (x *Exec) homeMethodEffect(st *State, w Value, name string) {
 		x.heapSorts[k] = sorts[k]
 		st.heap[k] = x.vc.Name(Ite(guards[k], fresh, old), "H|"+k)
 		x.written[k] = true
+	}
+	// invariants that every call of the method preserves still hold after any number of calls
+	for _, p := range preserved {
+		vars := map[string]TV{p.fn.Params[0].Name(): {p.rv, p.fn.Params[0].Type()}}
+		env := x.newEnv(&Frame{fn: p.fn, regs: map[ssa.Value]Value{}}, st, pre, vars, p.fn)
+		p1 := env.evalBool(p.c.Expr)
+		if env.err == nil {
+			x.assume(st, Implies(And(p.g, p.pre), p1))
+		}
 	}
 }
 
